@@ -1,14 +1,19 @@
 package props
 
 import (
+	"encoding/json"
 	"errors"
 	"fmt"
 	"math/big"
 	"net"
+	"net/http"
 	"reflect"
+	"strings"
 	"time"
 
+	z "github.com/Oudwins/zog"
 	"github.com/Oudwins/zog/conf"
+	"github.com/Oudwins/zog/zhttp"
 
 	"zogverif/internal/core"
 	"zogverif/internal/gen"
@@ -246,7 +251,45 @@ func (c03) RunCase(c *core.Ctx) {
 	}
 }
 
+var c03JSONContentTypes = []string{"application/json", "application/json; charset=utf-8", "application/json;charset=UTF-8", "Application/JSON", "application/json; charset=utf-8; charset=UTF-8",
+	"application/json; charset=utf-8; CHARSET=latin1", "application/json ; a=1; A=2", "application/json; boundary", "application/json;", "application/json; q=\"x;y\""}
+
+// c03JSONRequest: the documented coercions also hold for a JSON body read through zhttp, whatever parameters follow the media type
+// (the URL carries other values under the same names, so a wrong source shows in the destination).
+func c03JSONRequest(c *core.Ctx) bool {
+	type dst struct {
+		Name string
+		Age  int
+		Ok   bool
+		Tags []string
+	}
+	sch := z.Struct(z.Schema{"name": z.String(), "age": z.Int(), "ok": z.Bool(), "tags": z.Slice(z.String())})
+	age := c.R.Range(1, 90)
+	body := fmt.Sprintf(`{"name":%q,"age":%d,"ok":true,"tags":["a","b"]}`, gen.Word(c.R), age)
+	var wantName string
+	_ = json.Unmarshal([]byte(body[8:strings.Index(body, ",")]), &wantName)
+	for _, ct := range c03JSONContentTypes {
+		for _, method := range []string{"POST", "PUT", "PATCH", "DELETE"} {
+			r, _ := http.NewRequest(method, "/x?name=from-query&age=99&ok=false&tags=q", strings.NewReader(body))
+			r.Header.Set("Content-Type", ct)
+			var d dst
+			issues := sch.Parse(zhttp.Request(r), &d)
+			c.Eval(1)
+			if issues != nil || d.Name != wantName || d.Age != age || !d.Ok || strings.Join(d.Tags, ",") != "a,b" {
+				c.Violation("destination-is-not-documented-coercion|json-body-through-zhttp", map[string]any{"method": method, "content_type": ct, "body": body, "url_query": "name=from-query&age=99&ok=false&tags=q",
+					"destination": fmt.Sprintf("%+v", d), "issues": fmt.Sprint(z.Issues.SanitizeMap(issues))})
+				return false
+			}
+		}
+	}
+	c.Count("json_requests_through_zhttp", len(c03JSONContentTypes)*4)
+	return true
+}
+
 func c03Random(c *core.Ctx) {
+	if c.Case%50 == 1 && !c03JSONRequest(c) {
+		return
+	}
 	if c.Case%100 == 0 {
 		if sig, det := sameNamedTypesCheck(c.R); sig != "" {
 			c.Violation(sig, det)
